@@ -61,10 +61,11 @@ CLAIMS = {
         text='Static. Decided clauses: the bodies reading the separator fields are exactly the three literal readers and the four printers; no compute-layer body (calculate/get_number/unary impls, rule functions, interpreter, unit conversion) reaches one of them; '
              'the three readers apply the same transformation in the same order. Not decided: that every literal of a convention is matched by the regexes.'),
     'C09': dict(
-        technique='interval analysis of chrono constructor arguments, argument wiring, gamma tables',
+        technique='finite-domain tabulation of the extracted month/year step terms (month 1..12 x count 1..12) against calendar arithmetic; argument wiring; gamma decision tables; scan-shape rule over the parser registries',
         ref='DESIGN.md section 5 C09',
-        text='Static. Decided clauses: every reachable chrono date/time constructor with non-constant arguments is a checked (_opt) constructor whose None is handled or has argument intervals inside chrono\'s valid ranges; from_ymd_opt receives year/month/day from the same-named fields; '
-             'date patterns bind day and month; absolute difference shape; today/tomorrow/yesterday constants. Not decided: day-exact month/year arithmetic, leap days.'),
+        text='Static. Decided clauses: D1 the year and month steps of DateItem::calculate, tabulated from their value DAGs over every (month, count) cell, equal calendar arithmetic with the day unchanged (failure classes invalid-month / wrong-year / wrong-month are separate findings); D2 small_date builds the date with the checked constructor from the fields named year / month / day, rejects None, defaults the year to the current year, and every date pattern binds day and month with accepted types; '
+             'D3 A to B is the larger minus the smaller of the two stored values, for dates and for times; D4 today / tomorrow / yesterday are today +0 / +1 / -1 days and every language names them; D5 every literal parser iterates over all matches; D6 month table numbering (index+1, stored at number-1, emitted by the parser, printed from month-1); D7 the duration is split by YEAR and MONTH with exact remainders and the remainder is applied with the operation\'s own operator. '
+             'Not decided: leap days, day-of-month overflow (31 Jan + 1 month), 30-day months versus calendar months for counts given in days.'),
     'C10': dict(
         technique='evaluated constants, gamma decision tables, CFG chain shape, data tables',
         ref='DESIGN.md section 5 C10',
